@@ -493,6 +493,27 @@ def run(ctx):
         if rc != 0:
             ctx.tie_broken("coqchk rejected Properties_C18: " + " ".join(o.split())[-400:])
 
+    # ---- second tie (translator), beside the correspondence: regenerate Gen.UtfGen from the current sources, re-prove the tie theorems
+    tie_pool = ThreadPoolExecutor(max_workers=1)
+    tie_job = tie_pool.submit(translator_tie, ctx)
+    try:
+        correspondence(ctx)
+    finally:
+        tie_job.result()
+        tie_pool.shutdown()
+
+
+# translator tie: functions regenerated by tools/c2int.py on every run, in call order (a_utf_length calls a_utf_decode)
+INT_SOURCES = [("src/utf.c", ["a_utf_encode", "a_utf_decode", "a_utf_length"])]
+# fuel of the generated call sites = the model's: dec_fuel = 8 for both continuation-byte loops, num + 1 for the walk
+INT_FUEL = {"a_utf_decode": ["8%nat", "8%nat"], "a_utf_length": ["S (N.to_nat num)"]}
+
+
+def translator_tie(ctx):
+    return ctx.int_translate_and_tie(INT_SOURCES, "UtfGen", [H / "TieIntEnc.v", H / "TieIntDec.v", H / "TieIntLen.v"], fuel=INT_FUEL)
+
+
+def correspondence(ctx):
     # ---- build implementation, model, sweep
     cbin = ctx.cc("drv", [H / "drv.c"], repo_srcs=["utf.c"], mode="asan")
     sbin = ctx.cc("sweep", [H / "sweep.c"], repo_srcs=["utf.c"], mode="num")
@@ -619,11 +640,27 @@ META = {
             "the same length and x, every proper prefix is rejected, the decoder never reads at an index >= num (checked "
             "accessor never fails, fuel never runs out), reports <= min(num,6) bytes, accepts a multi-byte sequence only when "
             "all trailing bytes are continuation bytes, 0xFE/0xFF rejected; a_utf_length/_length_ advance by exactly the "
-            "decoder's reports and stop at NUL / undecodable byte / end. Tie: extracted model vs the C under ASan+UBSan with "
-            "every buffer flush against a PROT_NONE page.",
-    "note": "Trusted: Coq kernel; extraction (ExtrOcamlBasic only) + drivers; hand-written model coq/C18/UtfDefs.v tied by "
-            "differential testing on the generated cases (all code points < 0x20000, boundaries, lead byte x continuation "
-            "matrices, mutated/truncated strings; thorough: all 2^31-1 code points C-side against the spec); memory safety of the "
-            "C is observed (guard page, sanitizers), proved only of the model; finite byte sweeps (<256) lifted by a proved lemma. No axioms.",
-    "technique": "Rocq proof (div/mod-64 arithmetic by lia over the six length ranges, byte sweeps lifted by lemma) + extracted-model vs C correspondence with guard pages",
+            "decoder's reports and stop at NUL / undecodable byte / end. Two ties on every run: (1) translator tie - "
+            "tools/c2int.py regenerates a Gallina model over N from the current src/utf.c (range ladder as nested lets, the "
+            "fall-through switch as one arm per label, the `chr <<= 1` loops and the a_utf_length loop as fuel-indexed Fixpoints "
+            "with the `return 0` inside as a tagged result, every read a checked nth_error, every store a checked list update, "
+            "wrap at every unsigned shift/add) and 6 theorems (harness/C18/TieInt*.v) prove a_utf_encode (buffer and NULL), "
+            "a_utf_decode (val and NULL; any num against exactly the bytes present) and a_utf_length (stop and NULL) equal to "
+            "the model of coq/C18/UtfDefs.v for ALL code points, byte lists of ANY length and buffers of any size - including "
+            "the failing runs: the regenerated function fails exactly where the model's checked accessors do; (2) extracted "
+            "model vs the C under ASan+UBSan with every buffer flush against a PROT_NONE page.",
+    "note": "Trusted: Coq kernel; the translator tools/c2int.py as a reading of the C (its output is re-tied to the model by proof "
+            "on every run; the extracted-model-vs-C correspondence is the independent guard against a misreading shared with "
+            "the hand model); extraction (ExtrOcamlBasic only) + drivers; correspondence cases: all code points < 0x20000, "
+            "boundaries, lead byte x continuation matrices, mutated/truncated strings; thorough: all 2^31-1 code points C-side "
+            "against the spec.  The tie reads the model results through the maps of coq/C18/TieLemmas.v (cells all written <-> "
+            "byte list; DRet/NRet <-> (return value, *val or *stop cell); DOver/DFuel and NOver/NFuel both read as failure). "
+            "NOT in the translator tie: a_utf_length_ (it reads the bytes through `char`, i.e. as negative values for bytes >= "
+            "0x80, which the translator does not represent; it stays tied by the correspondence only).  Translator limits: "
+            "forming a pointer past a buffer is not checked, only accesses are; memory safety of the C beyond what the checked "
+            "accessors of the regenerated functions show is observed (guard page, sanitizers); finite byte sweeps (<256) lifted "
+            "by a proved lemma. No axioms (Print Assumptions under every tie theorem: closed).",
+    "technique": "Rocq proof (div/mod-64 arithmetic by lia over the six length ranges, byte sweeps lifted by lemma) + translator tie "
+                 "(c2int: regenerated integer model = proved model, 6 theorems re-proved per run) + extracted-model vs C "
+                 "correspondence with guard pages",
 }
